@@ -67,6 +67,12 @@ template <class Quant, class Bhiksha> class TrieSearch {
 
     ProbBackoff &UnknownUnigram() { return unigram_.Unknown(); }
 
+    // Default weights for <unk> when the ARPA file does not list it.
+    void SetUnknownMissing(float prob) {
+      unigram_.Unknown().backoff = 0.0;
+      unigram_.Unknown().prob = prob;
+    }
+
     UnigramPointer LookupUnigram(WordIndex word, Node &next, bool &independent_left, uint64_t &extend_left) const {
       extend_left = static_cast<uint64_t>(word);
       UnigramPointer ret(unigram_.Find(word, next));
